@@ -20,7 +20,7 @@ ASSUMPTIONS = ["only dbm.dumb exists in this image, so DBMDict reopen and path-e
                "a refusal of a closed-dictionary operation is any raised exception (ValueError in practice)",
                "aliasing through mutable bytearray values is not asserted"]
 
-KEYS = [b"", b"a", b"b", b"\x00", b"key-with-some-length", b"\xff\xfe"]
+KEYS = [b"", b"a", b"b", b"\x00", b"key-with-some-length", b"\xff\xfe", b"\x80\x04N.", b"a\x00"]
 
 
 def B(h):
@@ -260,7 +260,10 @@ def run_case(case):
 def st_value(draw):
     t = draw(st.sampled_from(["b"] * 8 + ["ba", "ba", "s", "i", "none", "l", "mv", "arr", "f", "t"]))
     if t in ("b", "ba"):
-        return [t, draw(st.one_of(st.binary(max_size=40), st.just(b""), st.just(b"\x00"))).hex()]
+        import pickle
+        special = [b"", b"\x00", b"\x80\x04N.", pickle.dumps(7, 4), pickle.dumps(b"other", 4), pickle.dumps(None, 2), b"\x80\x04\x95garbage.",
+                   b"\x80\x03.", b".", b"\x80", b"None", b"\xff" * 8, b" ", b"\n", b"0", b"\x00" * 16]
+        return [t, draw(st.one_of(st.binary(max_size=40), st.sampled_from(special), st.sampled_from(special))).hex()]
     if t == "s":
         return ["s", draw(st.sampled_from(["", "text"]))]
     if t == "i":
@@ -290,7 +293,8 @@ def st_case(draw, max_ops=30):
     c = {"cls": "pickled" if pickled else "dbm"}
     if draw(st.booleans()):
         kis = draw(st.lists(st.integers(0, len(KEYS) - 1), unique=True, max_size=len(KEYS)))
-        c["init"] = [[KEYS[i].hex(), ["b", draw(st.binary(max_size=20)).hex()]] for i in kis]
+        c["init"] = [[KEYS[i].hex(), ["b", draw(st.one_of(st.binary(max_size=20), st.sampled_from([b"", b"\x80\x04N.", b"\x80\x04K\x07.", b"."]))).hex()]]
+                     for i in kis]
         c["source_kind"] = draw(st.sampled_from(["dict", "dict", "defaultdict", "ordered", "missing_hook"]))
     else:
         c["init"] = None
